@@ -65,6 +65,7 @@ func inRange(x string, t types.Type) string {
 func (g *Gen) arithChecked() bool { return g.ct != nil && g.ct.Arith == "checked" }
 
 func (g *Gen) instr(st *State, ins ssa.Instruction) {
+	g.curIns = ins
 	switch x := ins.(type) {
 	case *ssa.DebugRef:
 	case *ssa.Phi:
